@@ -385,7 +385,9 @@ impl Display for SequencedSegment {
 
 impl StreamSocket {
     fn new(capacity: usize) -> (Self, mpsc::Receiver<SequencedSegment>, BidiFlowControl) {
-        let (tx, rx) = mpsc::channel(capacity);
+        // Data segments are bounded by `capacity` flow-control credits; the FIN
+        // is not credit-gated, so keep one spare slot for it.
+        let (tx, rx) = mpsc::channel(capacity + 1);
         let flow_control = BidiFlowControl::new(capacity);
         let sock = Self {
             buf: IndexMap::new(),
